@@ -247,7 +247,7 @@ fn check(id: &str, tier: Tier) -> i32 {
         "level": "exploration",
         "coverage": {
             "evaluations": total.evaluations,
-            "distinct_nontrivial": total.nontrivial_hashes.len(),
+            "distinct_nontrivial": total.distinct(),
             "nontrivial_total": total.nontrivial,
             "rule": prop.rule(),
             "samples": total.samples,
@@ -272,7 +272,7 @@ fn check(id: &str, tier: Tier) -> i32 {
         "property={id} tier={} seed={seed} evaluations={} distinct_nontrivial={} wall_s={:.1}",
         tier.name(),
         total.evaluations,
-        total.nontrivial_hashes.len(),
+        total.distinct(),
         t0.elapsed().as_secs_f64()
     );
     if let Some((path, msg)) = violations.first() {
@@ -327,6 +327,11 @@ fn main() {
                     2
                 }
             }
+        }
+        Some("hash") => {
+            let seq: Vec<vh::props::c14::RegOp> = serde_json::from_str(&args[1]).unwrap();
+            println!("{:?}", vh::props::c14::hash_of(&seq));
+            0
         }
         Some("list") => {
             for id in vh::props::ids() {
